@@ -59,24 +59,24 @@ def every_attribute_evaluated(prog, chk):
 
 
 def run(prog, chk):
-    skeleton(prog, chk)
-    operators(prog, chk)
-    functions(prog, chk)
-    malformed(prog, chk)
-    once_and_rng(prog, chk)
-    single_precision_only(prog, chk)
-    one_evaluation_per_element(prog, chk)
-    every_attribute_evaluated(prog, chk)
-    nesting_counter_balanced(prog, chk)
-    list_grammar(prog, chk)
+    chk.rule(skeleton, prog, chk)
+    chk.rule(operators, prog, chk)
+    chk.rule(functions, prog, chk)
+    chk.rule(malformed, prog, chk)
+    chk.rule(once_and_rng, prog, chk)
+    chk.rule(single_precision_only, prog, chk)
+    chk.rule(one_evaluation_per_element, prog, chk)
+    chk.rule(every_attribute_evaluated, prog, chk)
+    chk.rule(nesting_counter_balanced, prog, chk)
+    chk.rule(list_grammar, prog, chk)
     from props import C15
-    C15.reuse_overrides_evaluated(prog, chk)  # the overrides a <reuse> hands to its target are the evaluated ones (not evaluated again)
+    chk.rule(C15.reuse_overrides_evaluated, prog, chk)  # the overrides a <reuse> hands to its target are the evaluated ones (not evaluated again)
     from props import geomalg
     n = geomalg.check_sites(prog, chk, "C14")
     chk.floor("A17.site-algebra", n, 36, "built-in function compared with the reference algebra")
     from props import strops
-    strops.check_for(prog, chk, "C14")
-    strops.check_evaluation_sites(prog, chk)  # "exactly once": the places that evaluate a string are the reviewed ones  # A14.str-ops: how this property's strings are cut up is a reviewed, frozen inventory
+    chk.rule(strops.check_for, prog, chk, "C14")
+    chk.rule(strops.check_evaluation_sites, prog, chk)  # "exactly once": the places that evaluate a string are the reviewed ones  # A14.str-ops: how this property's strings are cut up is a reviewed, frozen inventory
 
 
 def nesting_counter_balanced(prog, chk):
